@@ -361,15 +361,20 @@ func (m *ldbManager) Add(transaction Transaction) error {
 	frontierIdentifier := GetFrontierIdentifier(NewLevelDBWrapper(m.ldb).Subset(frontierByte))
 
 	if previous == frontierIdentifier {
+		// collect all writes and apply them atomically, so a crash can't leave a half-applied commit behind
+		batch := newLevelDBBatchWriter(m.ldb)
 		verifWrite("add:patch")
-		if err := m.ldb.Put(common.JoinBytes(patchByte, common.Uint64ToBytes(identifier.Height)), patch.Dump(), nil); err != nil {
+		if err := batch.Put(common.JoinBytes(patchByte, common.Uint64ToBytes(identifier.Height)), patch.Dump(), nil); err != nil {
 			return err
 		}
 		verifWrite("add:rollback")
-		if err := m.ldb.Put(common.JoinBytes(rollbackByte, common.Uint64ToBytes(identifier.Height)), rollbackPatch.Dump(), nil); err != nil {
+		if err := batch.Put(common.JoinBytes(rollbackByte, common.Uint64ToBytes(identifier.Height)), rollbackPatch.Dump(), nil); err != nil {
 			return err
 		}
-		if err := ApplyPatch(NewLevelDBWrapper(m.ldb).Subset(frontierByte), patch); err != nil {
+		if err := ApplyPatch(enableDelete(&levelDBWrapper{db: batch}).Subset(frontierByte), patch); err != nil {
+			return err
+		}
+		if err := batch.Write(); err != nil {
 			return err
 		}
 	}
@@ -385,19 +390,21 @@ func (m *ldbManager) Pop() error {
 	m.l1Cache.Purge()
 	m.l2Cache.Purge()
 
-	if err := ApplyPatch(NewLevelDBWrapper(m.ldb).Subset(frontierByte), rollbackPatch); err != nil {
+	// collect all writes and apply them atomically, so a crash can't leave a half rolled-back commit behind
+	batch := newLevelDBBatchWriter(m.ldb)
+	if err := ApplyPatch(enableDelete(&levelDBWrapper{db: batch}).Subset(frontierByte), rollbackPatch); err != nil {
 		return err
 	}
 	verifWrite("pop:patch")
-	if err := m.ldb.Delete(common.JoinBytes(patchByte, common.Uint64ToBytes(frontierIdentifier.Height)), nil); err != nil {
+	if err := batch.Delete(common.JoinBytes(patchByte, common.Uint64ToBytes(frontierIdentifier.Height)), nil); err != nil {
 		return err
 	}
 	verifWrite("pop:rollback")
-	if err := m.ldb.Delete(common.JoinBytes(rollbackByte, common.Uint64ToBytes(frontierIdentifier.Height)), nil); err != nil {
+	if err := batch.Delete(common.JoinBytes(rollbackByte, common.Uint64ToBytes(frontierIdentifier.Height)), nil); err != nil {
 		return err
 	}
 
-	return nil
+	return batch.Write()
 }
 func (m *ldbManager) Stop() error {
 	m.changes.Lock()
